@@ -172,6 +172,7 @@ CheckRecord(n, pre, m, rec, entered, src) ==
     /\ Diff(n, "badThis", <<>>, rec.badThis)
     /\ Diff(n, "badOrigin", <<>>, rec.badOrigin)
     /\ Diff(n, "asserts", <<>>, rec.asserts)
+    /\ Diff(n, "allocs", 0, rec.allocs)
     /\ Monitors(n, pre, m, rec, entered, src)
     \* bookkeeping for the orchestration (not a judgement): was a round vetoed in this step?
     /\ IF \E i \in 1 .. Len(m.rounds) : m.rounds[i][1] = "vetoed" THEN PrintT(<<"NOTE", n, "vetoed">>) ELSE TRUE
@@ -188,9 +189,11 @@ TraceInit == l = 1 /\ obs = [i \in Slots |-> BlankObs] /\ ent = [i \in Slots |->
 
 TraceNext ==
     /\ l <= Len(T)
-    /\ LET rec == T[l]
-           pre == IF rec.a[1] = "copy" THEN obs[rec.a[2]] ELSE obs[rec.i]
-           m   == Step(FromObs(pre), rec.a, rec.sc)
+    /\ LET rec0 == T[l]
+           pre == IF rec0.a[1] = "copy" THEN obs[rec0.a[2]] ELSE obs[rec0.i]
+           m   == Step(FromObs(pre), rec0.a, rec0.sc)
+           \* a quiet record (allocation measurement) carries no callback log: judge the rest against the expected one
+           rec == IF rec0.quiet THEN [rec0 EXCEPT !.ev = m.ev] ELSE rec0
            \* where an open finding's deviation switch mattered, the intended behaviour is acceptable too
            mI  == Step([FromObs(pre) EXCEPT !.dev = {}], rec.a, rec.sc)
            e0  == IF rec.a[1] = "new" THEN {} ELSE IF rec.a[1] = "copy" THEN ent[rec.a[2]] ELSE ent[rec.i]
